@@ -16,6 +16,9 @@ Four families of harnesses:
   pca_counts  PCAVectorModel / PCAModel .increment(...): sample count and mean against the batch model, for n
   pca_model   above and below d, centred and uncentred, with LAPACK (eigh, qr, svd) cut by contract stubs
   pca_degenerate  all samples identical (zero variance)
+  ipca_algebra    menpo.math.ipca, one update from an arbitrary valid prior model (d = 2): the scatter the update
+              hands to the SVD, expressed in the basis it returns, is the pooled scatter of prior model and new data
+              (the eigenvalue / principal-subspace clause up to LAPACK's SVD, which is trusted)
 
 Findings on the unchanged tree (genuine, confirmed by hand; reported as VIOLATIONs):
   * obligations "...after_exactly_zero_mean": menpo.math.decomposition.ipca treats a mean that is EXACTLY zero as
@@ -69,12 +72,15 @@ META = {
                     "zero in the batch model as well)",
                     "pca_counts / pca_model: the first two samples differ by >= 0.5 in their first coordinate "
                     "(non-degenerate data; justifies the stub contracts), pca_degenerate covers identical samples"],
-    "not_covered": ["equality of eigenvalues and principal subspace after ipca (QR of a symbolic residual followed by "
-                    "an SVD larger than 2x2: no model within reach); in particular ipca's absolute eigenvalue "
-                    "threshold versus pca's relative one on small-scale data",
+    "not_covered": ["eigenvalues and principal subspace after ipca are covered only as the pre-SVD algebra of one update "
+                    "(harness ipca_algebra: d = 2, 1-2 prior components, 1-3 new samples, QR factor over-approximated by "
+                    "any orthogonal matrix); the SVD step itself, d >= 3 (polynomial arithmetic did not finish), the "
+                    "initial pca() decomposition, and ipca's absolute eigenvalue threshold versus pca's relative one on "
+                    "small-scale data are not covered",
                     "forgetting factor != 1 (the property is stated without forgetting)",
                     "n_components (truncated-SVD inverse) in the GMRF", "float32 storage of the precision matrix"],
     "trusted": ["NumPy's documented mean/cov formulae as written in the harness", "BSR block-sum model",
+                "LAPACK's SVD contract V^T diag(s^2) V = R^T R with descending s (ipca_algebra stops at the SVD call)",
                 "canonical polynomial arithmetic of the engine (structural identity of fractions)"],
 }
 
@@ -230,9 +236,13 @@ def instances(tier):
         out.append(("pca_counts", {"n0": 3, "d": 2, "centre": False, "incs": [2, 1, 1], "inplace": False}, big))
     out.append(("pca_model", {"n0": 3, "centre": True, "incs": [1]}))
     out.append(("pca_degenerate", {"n0": 3, "d": 2, "m": 1}))
-    # (eigenvalues / principal subspace after ipca: attempted as a one-step harness on menpo.math.ipca with d = 2
-    # through the 2x1 QR and 2x2 SVD contracts; z3 could not decide the feasibility of menpo's 1e-10 eigenvalue floor
-    # under those contracts within 10 minutes, so the clause stays uncovered -- see DESIGN.md)
+    # eigenvalues / principal subspace: the algebra of one ipca update from an arbitrary valid prior model, up to the
+    # SVD call (see ipca_algebra)
+    for d, k, m, centred in ((2, 1, 1, True), (2, 1, 2, False), (2, 2, 1, True), (2, 1, 2, True)) + (
+            () if quick else ((2, 2, 2, False), (2, 2, 2, True), (2, 1, 3, True), (2, 1, 3, False))):
+        # (d = 3 through the quaternion parametrisation did not finish its polynomial arithmetic in 5 minutes)
+        for n_a in ((k + 1, k + 3) if quick else (k + 1, k + 2, k + 5)):
+            out.append(("ipca_algebra", {"d": d, "k": k, "m": m, "centred": centred, "n_a": n_a}))
     return out
 
 
@@ -692,6 +702,113 @@ def pca_counts(F, ob, cfg):
 
 
 PCA_TOL = 1e-9
+
+
+def ipca_algebra(F, ob, cfg):
+    """menpo.math.ipca, one update from an ARBITRARY VALID prior model (k orthonormal components U_a, eigenvalues
+    l_a > 0, n_a samples, mean m_a) with m new samples B, all symbolic.  The law behind "same eigenvalues and
+    principal subspace as the batch model": the updated model's scatter U^T diag(l) U (n-1) equals the pooled scatter
+        (n_a-1) U_a^T diag(l_a) U_a + sum_b (b-m_b)(b-m_b)^T + (n_a n_b / n)(m_b-m_a)(m_b-m_a)^T   (centred)
+        (n_a-1) U_a^T diag(l_a) U_a + B^T B                                                         (uncentred)
+    so that, by induction over increments, the incremental covariance is the batch covariance.
+    Symbolically the law is checked up to the SVD call: numpy.linalg.svd is replaced by an INSTRUMENT that records
+    the matrix R it is given and answers (I, 1, I), so that the components ipca hands back are exactly the basis it
+    multiplies V^T with; the obligation is basis^T R^T R basis = pooled scatter (given a correct SVD, V^T diag(s^2) V =
+    R^T R, that is the law above; LAPACK's SVD itself is trusted).  numpy.linalg.qr of the d x d residual block
+    returns ANY orthogonal matrix (every QR factor Q is one; only Q is used).  In the concrete replay nothing is
+    replaced and the law is evaluated on the real output."""
+    import menpo.math.decomposition as dec
+    from symx import core, npproxy
+    from symx.core import Sym, SymB
+
+    d, k, m, centred, n_a = cfg["d"], cfg["k"], cfg["m"], cfg["centred"], cfg["n_a"]
+    if d == 2:
+        # unit vectors as (c, +-sqrt(1 - c^2)): no denominators, and even powers of the root are rewritten by
+        # core.reduce_sqrts, which keeps the polynomial arithmetic small
+        c0 = F.real("ua_c", -1, 1)
+        s0 = F.sqrt(1 - c0 * c0)
+        if F.bool("ua_neg"):
+            s0 = -s0
+        Rm = K.arr(F, [[c0, -s0], [s0, c0]])
+    else:
+        Rm = K.rot(F, "ua", d)
+    U_a = np.array(Rm[:k, :], dtype=object if F.sym else float)
+    l_a = F.reals("la", (k,), 0.05, 4)
+    B = F.reals("b", (m, d), -3, 3)
+    m_a = None
+    if centred:
+        m_a = F.reals("ma", (d,), -3, 3)
+        F.assume(m_a[0] >= 0.05)  # (a mean of exactly zero is read as "uncentred": subject of pca_counts)
+    log = {}
+    if F.sym:
+        def qr(A, mode="reduced"):
+            A = core.O(A)
+            if A.shape[0] != d or A.shape[1] < d or mode != "reduced":
+                raise core.Unsupported("qr instrument: only d x (>= d) blocks (got %s)" % (A.shape,))
+            c = core.ctx()
+            if d == 2:
+                cc = F.fresh("qr_c", -1, 1)
+                ss = (1 - cc * cc).sqrt()
+                if bool(SymB(c.fresh_bool("qr_neg"))):
+                    ss = -ss
+                Q = np.array([[cc, -ss], [ss, cc]], dtype=object)
+            else:
+                w, x, y, z = [F.fresh("qr_q", -4, 4) for _ in range(4)]
+                nn = w * w + x * x + y * y + z * z
+                c.defined.append(core.bterm(nn >= 0.01))
+                Q = np.array([[nn - 2 * (y * y + z * z), 2 * (x * y - z * w), 2 * (x * z + y * w)],
+                              [2 * (x * y + z * w), nn - 2 * (x * x + z * z), 2 * (y * z - x * w)],
+                              [2 * (x * z - y * w), 2 * (y * z + x * w), nn - 2 * (x * x + y * y)]], dtype=object) * (1 / nn)
+            if bool(SymB(c.fresh_bool("qr_reflect"))):
+                Q = Q.copy()
+                Q[:, 0] = -Q[:, 0]
+            log["qr"] = A.shape
+            return Q, np.zeros((d, A.shape[1]), dtype=object)
+
+        def svd(Rmat, **kw):
+            Rmat = core.O(Rmat)
+            log["R"] = Rmat
+            p, q = Rmat.shape
+            return K.eye(F, p), K.const(F, np.ones(min(p, q))), K.eye(F, q)
+
+        npproxy.NP.stubs["linalg.qr"] = qr
+        npproxy.NP.stubs["linalg.svd"] = svd
+        # square roots of concrete weights (sqrt(n_a n_b / n)) stay exact: r >= 0, r^2 = the float menpo computed
+        orig_sqrt = npproxy.NP.sqrt
+
+        def exact_sqrt(a):
+            if isinstance(a, (float, int, np.floating)) and not isinstance(a, bool):
+                return Sym.of(float(a)).sqrt()
+            return orig_sqrt(a)
+
+        F.patch(npproxy.NP, "sqrt", exact_sqrt)
+    U, l, mean = dec.ipca(B.copy(), U_a.copy(), l_a.copy(), n_a, m_a=None if m_a is None else m_a.copy())
+    n = n_a + m
+    prior = sum(np.outer(U_a[i], U_a[i]) * (l_a[i] * (n_a - 1)) for i in range(k))
+    if centred:
+        m_b = B.sum(axis=0) / m
+        Bc = B - m_b
+        dm = m_b - m_a
+        w = (float(n_a) * m) / (float(n_a) + m)  # the very float menpo takes the square root of
+        want = prior + Bc.T.dot(Bc) + np.outer(dm, dm) * K.const(F, w)
+        ob.eq("mean", mean, (m_a * n_a + B.sum(axis=0)) / n, atol=1e-9)
+    else:
+        want = prior + B.T.dot(B)
+        ob.eq("mean.uncentred", mean, np.zeros(d))
+    if F.sym:
+        ob.true("instrument.reached", "R" in log and "qr" in log)
+        if "R" not in log:
+            return
+        R = log["R"]
+        ob.true("basis.shape", np.shape(U) == (R.shape[1], d))
+        rtr = core.reduce_sqrts(R.T.dot(R))
+        got = core.reduce_sqrts(core.reduce_sqrts(U.T.dot(rtr)).dot(U))
+        ob.eq("pooled_scatter(pre-SVD)", core.reduce_sqrts(got), want)
+    else:
+        got = sum(np.outer(U[i], U[i]) * l[i] for i in range(len(l))) * (n - 1)
+        ob.eq("pooled_scatter", got, want, tol=1e-7)
+        ob.eq("components.orthonormal", U.dot(U.T), np.eye(len(l)), atol=1e-8)
+        ob.true("eigenvalues.positive_descending", bool(np.all(l > 0)) and bool(np.all(np.diff(l) <= 1e-12)))
 
 
 def pca_model(F, ob, cfg):
